@@ -159,6 +159,12 @@ func (in *Interp) runInit(pkg *ssa.Package) {
 	savedPC, savedKnown, savedFrame := in.pc, in.known, in.curFrame
 	in.pc, in.known = nil, map[int]bool{}
 	initFn := pkg.Func("init")
+	// the init guard may have been set by a skipped nested call; clear it
+	if g, ok := pkg.Members["init$guard"].(*ssa.Global); ok {
+		if o, ok := in.globals[g]; ok {
+			o.Cells[0] = in.C.False
+		}
+	}
 	func() {
 		defer func() {
 			in.inInit--
@@ -327,20 +333,36 @@ func (in *Interp) runBlocks(fr *frame) Value {
 	for {
 		b := fr.block
 		var next *ssa.BasicBlock
-		for _, ins := range b.Instrs {
+		// phis are evaluated in parallel on block entry
+		nphi := 0
+		if _, ok := b.Instrs[0].(*ssa.Phi); ok {
+			pi := -1
+			for i, p := range b.Preds {
+				if p == fr.prev {
+					pi = i
+					break
+				}
+			}
+			var vals []Value
+			for _, ins := range b.Instrs {
+				phi, ok := ins.(*ssa.Phi)
+				if !ok {
+					break
+				}
+				vals = append(vals, in.get(fr, phi.Edges[pi]))
+				nphi++
+			}
+			for i := 0; i < nphi; i++ {
+				in.set(fr, b.Instrs[i].(*ssa.Phi), vals[i])
+			}
+		}
+		for _, ins := range b.Instrs[nphi:] {
 			in.steps++
 			in.Steps++
 			if in.steps > in.X.MaxSteps {
 				in.X.abortPath(StatusUnwind, fmt.Sprintf("step budget exceeded in %s", fr.fn))
 			}
 			switch ins := ins.(type) {
-			case *ssa.Phi:
-				for i, p := range b.Preds {
-					if p == fr.prev {
-						in.set(fr, ins, in.get(fr, ins.Edges[i]))
-						break
-					}
-				}
 			case *ssa.Jump:
 				next = b.Succs[0]
 			case *ssa.If:
